@@ -57,7 +57,7 @@ impl Reference {
                     if !content.loads() {
                         reference.problems.push(format!("{} does not parse ({})", SLOTS[slot], content.name));
                     } else {
-                        if content.class == Class::Executable {
+                        if content.class == Class::Executable || content.template.contains(crate::content::BUILTIN) {
                             reference.external = true;
                         }
                         for import in &content.imports {
